@@ -45,6 +45,12 @@ def vmap(fun, in_axes=0, out_axes=0):
         if not sizes:
             raise ValueError("vmap shim: nothing to map over")
         b = sizes[0]
+        if b == 0:  # empty batch: learn the output structure from a zero template, return empty stacks
+            tmpl = [np.zeros(leaf.shape[1:], dtype=leaf.dtype) if _is_batched_leaf(leaf) else leaf for leaf in leaves]
+            o = fun(*optree.tree_unflatten(treedef, tmpl))
+            ol, otd = optree.tree_flatten(o, namespace="cola")
+            return optree.tree_unflatten(otd, [np.zeros((0, ) + np.shape(x), dtype=np.asarray(x).dtype)
+                                               if isinstance(x, (np.ndarray, np.generic)) else x for x in ol])
         outs = []
         for i in range(b):
             sl = [leaf[i] if _is_batched_leaf(leaf) else leaf for leaf in leaves]
